@@ -147,6 +147,8 @@ class CostExec(SymExec):
                 return Alg(Rat.sym('elem(%s)' % t.var))
             if t is not None and t.kind in ('vec', 'noisy'):
                 return base
+            if t is not None and t.kind == 'data':
+                return tagged('data', e)        # a column / row selection of the private records
         if isinstance(e, ast.BinOp):
             r = self.binop(e)
             if r is not None:
@@ -311,6 +313,8 @@ class CostExec(SymExec):
                 if last == 'datavector':
                     return tagged('vec', call, d1=w.d1(), d2sq=w.d2sq())
                 return tagged('data', call)         # project / drop / copy / map ...: still the private records
+            if tr is not None and tr.kind in ('vec', 'noisy', 'qvec', 'sens') and last in ('astype', 'copy', 'flatten', 'ravel', 'reshape'):
+                return recv          # same cells, other dtype / shape
             if tr is not None and tr.kind == 'dictof':
                 if last in ('values',):
                     return Opaque(call, Tag('valuesof', elem=tr.elem, elem_alg=getattr(tr, 'elem_alg', None)))
@@ -328,6 +332,11 @@ class CostExec(SymExec):
                 ti = tag_of(inner, 'vec')
                 if ti is not None:
                     return tagged('sens', call, D=ti.d1)
+        if name in ('np.bincount', 'numpy.bincount') and call.args:
+            # the histogram of a private column: one record moves one unit (its weight) - the sensitivity of a one-way marginal
+            v0 = self.value(call.args[0])
+            if tag_of(v0, 'data') is not None:
+                return tagged('vec', call, d1=w.d1(), d2sq=w.d2sq())
         if name in ('np.linalg.norm', 'numpy.linalg.norm') and len(call.args) == 2 and U(call.args[1]) == '1':
             inner = self.value(call.args[0])
             ti = tag_of(inner, 'vec')
